@@ -7,6 +7,11 @@ ALL = ["C%02d" % i for i in range(1, 21)]
 
 # id -> (level category, engine, technique, level text, level note, design ref)
 CLAIMED = {
+    "C04": ("fault_enumeration", "F",
+            "fault enumeration over the real subscriber / sync client / publisher stack in a synctest bubble (virtual time): for each of 42 (quick) / 72 (thorough) modes {libp2p-HTTP discovery, plain HTTP} x {1,2 addresses} x {queried head, explicit head, announce-triggered} x {unsegmented, segments of 1, 2} x {fresh, partly synced}, every fault kind (5 HTTP statuses, connection closed, short body, corrupt / substituted / empty body, stalled response, caller cancellation, hook failure) at every request position of the fault-free run, singly (quick) and in pairs within an attempt and across attempt and retry (thorough), each followed by a fault-free retry on the same subscriber",
+            "For every script the failed attempt must leave latest-synced unchanged, emit no success event, exactly one error event for announce-triggered syncs, a verifying store; the retry must succeed, end in the reference run's latest-synced value and stored set, re-request no verified block and report every block; masked faults must equal the reference run. Position-by-kind enumeration with a retry is what exposes sticky client fallback state that a single scripted missing block cannot.",
+            "Request positions come from a fault-free reference run per mode (the two concurrent discovery requests of libp2phttp may arrive in either order); the stream-reset retry branch is not driven; 30 virtual minutes is the horizon for 'no event'.",
+            "DESIGN.md 6/C04"),
     "C03": ("exploration", "I",
             "bounded-exhaustive enumeration: publisher side every root (10 CIDs) x topic (4) x key type (4) through the real Publisher handler; client side every single-byte substitution, every truncation and 14 field-level alterations of valid encoded heads (key types x topics x discovery/plain HTTP) served verbatim to the real Syncer.GetHead over an in-memory network, each alteration class also through Subscriber.SyncAdChain; judged by an independent reference validator",
             "GetHead may return a CID only when the reference validator (generic DAG-JSON decode, libp2p signature check over cid||topic, signer = expected peer) accepts exactly that CID; untouched heads must be accepted; on the subscriber path a rejected head must cause no block request, hook call, latest-sync change or event. Enumerating all byte and field alterations reaches the omitted-comparison and unsigned-topic cases that one wrong-peer sample does not.",
